@@ -97,7 +97,47 @@ def property_on_impl(obs):
     return None
 
 
+def curved_cases():
+    """closed and open structures of arcs, helices and wires (two-object loops included)"""
+    from mininec.mininec import Mininec, Wire, Arc, Helix
+    R = 1.0
+    out = []
+
+    def A(n, a1, a2):
+        return Arc(n, R, a1, a2, 0.002)
+
+    def W(n, p, q):
+        return Wire(n, *p, *q, 0.002)
+    # arcs lie in the x-z plane: angle a -> (R cos a, 0, R sin a)
+    E0, E180 = (R, 0.0, 0.0), (-R, 0.0, 0.0)
+    out.append(('half arc + diameter', lambda: [A(6, 0, 180), W(4, E0, E180)]))
+    out.append(('diameter + half arc', lambda: [W(4, E0, E180), A(6, 0, 180)]))
+    out.append(('half arc + reversed diameter', lambda: [A(6, 0, 180), W(4, E180, E0)]))
+    out.append(('two half arcs', lambda: [A(5, 0, 180), A(7, 180, 360)]))
+    out.append(('two half arcs, second backwards', lambda: [A(5, 0, 180), A(7, 0, -180)]))
+    out.append(('arc + two wires (triangle-like loop)', lambda: [A(6, 0, 180), W(3, E0, (0.0, 0.0, -1.0)), W(3, (0.0, 0.0, -1.0), E180)]))
+    out.append(('open: arc + tail', lambda: [A(6, 0, 180), W(3, E180, (-2.0, 0.0, 0.5))]))
+    out.append(('full circle', lambda: [A(12, 0, 360)]))
+    out.append(('quarter arcs x4', lambda: [A(3, 0, 90), A(3, 90, 180), A(4, 180, 270), A(3, 270, 360)]))
+
+    def helix_loop():
+        h = Helix(10, 1.0, 0.5, 0.002, 0.3, 0.3)
+        m0 = Mininec(10.0, [h])
+        g = m0.geo[0]
+        a, b = [float(x) for x in g.endpoints[0]], [float(x) for x in g.endpoints[1]]
+        return [Helix(10, 1.0, 0.5, 0.002, 0.3, 0.3), W(4, b, a)]
+    out.append(('helix + return wire', helix_loop))
+    return out
+
+
 def replay(rp):
+    if rp.get('kind') == 'curved':
+        from mininec.mininec import Mininec
+        mk = dict(curved_cases())[rp['name']]
+        m = Mininec(10.0, mk())
+        bad = topo.pulse_geometry_bad(m) or property_on_impl(topo.observe_impl(m))
+        print('replay', rp['name'], '->', bad or 'property holds')
+        return 1 if bad else 0
     spec = rp.get('spec')
     if not spec:
         print('replay: nothing to execute:', rp.get('kind'))
@@ -141,6 +181,19 @@ def run(ck):
                         why = 'object field ' + f
         if why:
             dis.append(dict(spec=spec, why=why))
+    from mininec.mininec import Mininec
+    for name, mk in curved_cases():
+        try:
+            m = Mininec(10.0, mk())
+        except Exception as e:
+            ck.violation(dict(kind='curved', name=name, observed='structure rejected: %s: %s' % (type(e).__name__, e)))
+            return
+        obs = topo.observe_impl(m)
+        ck.case(('curved', name), True)
+        bad = topo.pulse_geometry_bad(m) or property_on_impl(obs)
+        if bad:
+            ck.violation(dict(kind='curved', name=name, observed=bad))
+            return
     ck.stats['disagreements'] = len(dis)
     ck.cov['rule'] = ('random wire graphs on a small grid (chains, stars, loops, several components, 1-4 segments per wire, '
                       'either direction, +-ground, end points perturbed by 0.2..5 x tolerance in 30% of the cases); compared: '
